@@ -86,14 +86,33 @@ def titleGo : Bool → Str → Str
 /-- lower, UPPER, Title (duplicates removed: emoji have one form) -/
 def variants (w : Str) : List Str := [w, w.map upA, titleGo true w].eraseDups
 
-/-- a member of the regenerated regex's finite language is an *alternative* when it is a lower-case ASCII word
-(blanks allowed; `\s+` appears as its one-blank instance) or one non-ASCII code point (an emoji) -/
-def plausible (w : Str) : Bool :=
-  (w ≠ [] && w.all fun c => (97 ≤ c && c ≤ 122) || c == 32) || (w.length == 1 && w.all (· ≥ 128))
+/-- the skin-tone modifiers U+1F3FB … U+1F3FF (`EnglishChoice.SkinToneRegex`) -/
+def isSkinTone (c : Nat) : Bool := 127995 ≤ c && c ≤ 127999
 
-/-- the alternatives of polarity `b`, enumerated from the regenerated (rewritten) regex -/
-def alts (b : Bool) : List Str :=
-  ((enumLang (if b then RTV.Gen.boolTrueRegex else RTV.Gen.boolFalseRegex)).getD []).filter plausible |>.eraseDups
+/-- a member of the regenerated regex's finite language is an *alternative* when it is a lower-case ASCII word
+(blanks allowed; `\s+` appears as its one-blank instance), one non-ASCII code point (an emoji), or an emoji followed
+by a skin-tone modifier (two code points: `(👍|👌)(🏻|🏼|🏽|🏾|🏿)?`) — that is, every member of the language
+(`altsComplete`): the filter only guards against a resource whose language has members of another shape -/
+def plausible (w : Str) : Bool :=
+  (w ≠ [] && w.all fun c => (97 ≤ c && c ≤ 122) || c == 32) || (w.length == 1 && w.all (· ≥ 128)) ||
+  (match w with | [e, s] => e ≥ 128 && isSkinTone s | _ => false)
+
+/-- the word and bare-emoji alternatives (no skin-tone modifier) -/
+def isCore (w : Str) : Bool := !(match w with | [_, s] => isSkinTone s | _ => false)
+
+def langOf (b : Bool) : Option (List Str) := enumLang (if b then RTV.Gen.boolTrueRegex else RTV.Gen.boolFalseRegex)
+
+/-- the alternatives of polarity `b`, enumerated from the regenerated (rewritten) regex: words, emoji, and emoji with
+each of the five skin-tone modifiers -/
+def alts (b : Bool) : List Str := ((langOf b).getD []).filter plausible |>.eraseDups
+
+/-- … of these, the words and the bare emoji -/
+def altsCore (b : Bool) : List Str := (alts b).filter isCore
+/-- … and the emoji + skin-tone sequences -/
+def altsSkin (b : Bool) : List Str := (alts b).filter (!isCore ·)
+
+/-- the regex's language is finite and nothing of it is dropped by `plausible` -/
+def altsComplete (b : Bool) : Bool := (langOf b).isSome && ((langOf b).getD []).all plausible
 
 /-- (prefix, suffix) contexts: punctuation, blanks, filler words -/
 def contexts : List (Str × Str) :=
@@ -101,41 +120,134 @@ def contexts : List (Str × Str) :=
    (ofString "hmm... ", ofString " ..."), (ofString "well, ", [33]), ([9], [10])]
 
 def expected (c : Str × Str) (v : Str) (b : Bool) : Option (List MR) :=
-  some [⟨c.1.length, (c.1.length : Int) + v.length - 1, v, b, true⟩]
+  some [⟨c.1.length, (c.1.length : Int) + v.length - 1, v, b, Score.zero⟩]
 
-def polarityOK (E : Env) (b : Bool) : Bool :=
-  (alts b).all fun w => (variants w).all fun v => contexts.all fun c =>
+/-- every alternative of `ws` × letter case × context: one entity, exactly that expression, polarity `b` -/
+def polarityOn (E : Env) (b : Bool) (ws : List Str) : Bool :=
+  ws.all fun w => (variants w).all fun v => contexts.all fun c =>
     recognise E (c.1 ++ v ++ c.2) == expected c v b
 
+def polarityOK (E : Env) (b : Bool) : Bool := polarityOn E b (alts b)
+
+/-- a SAMPLE of neutral texts: empty, blank, words that merely contain an alternative, another emoji, a lone skin-tone
+modifier, a modifier after another emoji, a modifier inside a word -/
 def neutralPool : List Str :=
   [[], [32], [32, 32, 9, 10], ofString "maybe", ofString "nobody", ofString "okay", ofString "yesterday",
    ofString "yessir", ofString "notok", ofString "not-okay", ofString "maybe later, perhaps", ofString "42 ?",
-   ofString "nobody knows...", ofString "(okay)", ofString "o k", ofString "ye s", [128512], ofString "disagrees"]
+   ofString "nobody knows...", ofString "(okay)", ofString "o k", ofString "ye s", [128512], ofString "disagrees",
+   [127997], [128512, 127997], [121, 101, 127997, 115]]
 
-def neutralOK (E : Env) : Bool := neutralPool.all fun q => recognise E q == some []
+/-- neither regex has a non-empty match in the lower-cased text: what "contains none of the listed expressions"
+means to the code (`regex.finditer` over `trimmed_source`) -/
+def noMatch (E : Env) (q : Str) : Bool :=
+  (getMatches E E.trueRe (E.lower q)).isEmpty && (getMatches E E.falseRe (E.lower q)).isEmpty
+
+/-- the pool: nothing is reported, and each string is an instance of the universal clause (`noMatch`) -/
+def neutralOK (E : Env) : Bool := neutralPool.all fun q => recognise E q == some [] && noMatch E q
 
 def seps : List Str := [[32], [44, 32]]
 
 /-- one entity; it is a listed expression (text in `alts` of its own polarity, any letter case being lower here)
-whose span is where that text stands in `q` -/
+whose span is where that text stands in `q`; its score is the parser's default -/
 def oneListed (q : Str) (r : Option (List MR)) : Bool :=
   match r with
-  | some [m] => (alts m.value).contains m.text && sliceI q m.start (m.stop + 1) == m.text && m.scoreZero
+  | some [m] => (alts m.value).contains m.text && sliceI q m.start (m.stop + 1) == m.text && m.score == Score.zero
   | _ => false
 
-def bothOK (E : Env) : Bool :=
-  (alts true).all fun t => (alts false).all fun f => seps.all fun sp =>
-    oneListed (t ++ sp ++ f) (recognise E (t ++ sp ++ f)) && oneListed (f ++ sp ++ t) (recognise E (f ++ sp ++ t))
+/-- (t, f) in both orders around the separator -/
+def bothPair (E : Env) (t f sp : Str) : Bool :=
+  oneListed (t ++ sp ++ f) (recognise E (t ++ sp ++ f)) && oneListed (f ++ sp ++ t) (recognise E (f ++ sp ++ t))
 
-/-- two listed expressions of the same polarity: one entity, a listed expression of that polarity at its own place -/
+/-- every word / bare-emoji affirmative × every word / bare-emoji negative × both separators × both orders -/
+def bothOK (E : Env) : Bool :=
+  (altsCore true).all fun t => (altsCore false).all fun f => seps.all fun sp => bothPair E t f sp
+
+/-- the affirmatives `ts` × every negative, separated by one blank, both orders — the pairs in which at least one
+side carries a skin-tone modifier (the others are in `bothOK`) -/
+def bothSkinOn (E : Env) (ts : List Str) : Bool :=
+  ts.all fun t => (alts false).all fun f => (isCore t && isCore f) || bothPair E t f [32]
+
+/-- two listed expressions of the same polarity (words / bare emoji): one entity, a listed expression of that
+polarity at its own place -/
 def samePolarityOK (E : Env) : Bool :=
-  [true, false].all fun b => (alts b).all fun w1 => (alts b).all fun w2 =>
+  [true, false].all fun b => (altsCore b).all fun w1 => (altsCore b).all fun w2 =>
     oneListed (w1 ++ [32] ++ w2) (recognise E (w1 ++ [32] ++ w2))
 
-/-- the same expression two and three times (`no no`, `yes yes yes`) -/
+/-- every ordered pair `(w1, w2)`, `w1 ∈ ws`, of one polarity in which at least one side carries a skin-tone modifier -/
+def sameSkinOn (E : Env) (b : Bool) (ws : List Str) : Bool :=
+  ws.all fun w1 => (alts b).all fun w2 =>
+    (isCore w1 && isCore w2) || oneListed (w1 ++ [32] ++ w2) (recognise E (w1 ++ [32] ++ w2))
+
+/-- the same expression two and three times (`no no`, `yes yes yes`, `👍🏽 👍🏽`) -/
 def repeatsOK (E : Env) : Bool :=
   [true, false].all fun b => (alts b).all fun w =>
     oneListed (w ++ [32] ++ w) (recognise E (w ++ [32] ++ w)) &&
     oneListed (w ++ [32] ++ w ++ [32] ++ w) (recognise E (w ++ [32] ++ w ++ [32] ++ w))
+
+/-! ### the universal clause (any environment, any text) -/
+
+theorem partialFor_nil (E : Env) (source trimmed : Str) (toks : List Str) (re : RE) (v : Bool)
+    (h : getMatches E re trimmed = []) : partialFor E source trimmed toks re v = some [] := by
+  unfold partialFor; rw [h]; rfl
+
+/-- `extract` with no regex match on either side reports nothing (blank text included) -/
+theorem extract_noMatch (E : Env) (q : Str) (h : noMatch E q = true) : extract E q = some [] := by
+  unfold noMatch at h
+  simp only [Bool.and_eq_true, List.isEmpty_iff] at h
+  unfold extract
+  by_cases hb : strip E.isSpace q = []
+  · simp [hb]
+  · simp only [hb, if_false]
+    rw [partialFor_nil E _ _ _ _ _ h.1, partialFor_nil E _ _ _ _ _ h.2]
+    simp
+
+/-! ### assembling the split kernel evaluations -/
+
+theorem bothSkinOn_take_drop (E : Env) (l : List Str) (n : Nat) (h1 : bothSkinOn E (l.take n) = true)
+    (h2 : bothSkinOn E (l.drop n) = true) : bothSkinOn E l = true := by
+  unfold bothSkinOn at *
+  rw [← List.take_append_drop n l, List.all_append, h1, h2]; rfl
+
+theorem sameSkinOn_take_drop (E : Env) (b : Bool) (l : List Str) (n : Nat) (h1 : sameSkinOn E b (l.take n) = true)
+    (h2 : sameSkinOn E b (l.drop n) = true) : sameSkinOn E b l = true := by
+  unfold sameSkinOn at *
+  rw [← List.take_append_drop n l, List.all_append, h1, h2]; rfl
+
+theorem mem_altsCore (b : Bool) (w : Str) (hw : w ∈ alts b) (hc : isCore w = true) : w ∈ altsCore b := by
+  unfold altsCore; exact List.mem_filter.2 ⟨hw, hc⟩
+
+/-- every (affirmative, negative) pair of ALL alternatives around one blank, from the two evaluations -/
+theorem both_all (E : Env) (h1 : bothOK E = true) (h2 : bothSkinOn E (alts true) = true) :
+    ∀ t ∈ alts true, ∀ f ∈ alts false, bothPair E t f [32] = true := by
+  intro t ht f hf
+  by_cases hc : (isCore t && isCore f) = true
+  · simp only [Bool.and_eq_true] at hc
+    unfold bothOK at h1
+    have := List.all_eq_true.1 (List.all_eq_true.1 (List.all_eq_true.1 h1 t (mem_altsCore _ _ ht hc.1)) f
+      (mem_altsCore _ _ hf hc.2)) [32] (by simp [seps])
+    exact this
+  · unfold bothSkinOn at h2
+    have := List.all_eq_true.1 (List.all_eq_true.1 h2 t ht) f hf
+    simp only [Bool.or_eq_true] at this
+    rcases this with h | h
+    · exact absurd h hc
+    · exact h
+
+/-- every ordered pair of one polarity of ALL alternatives, from the two evaluations -/
+theorem same_all (E : Env) (b : Bool) (h1 : samePolarityOK E = true) (h2 : sameSkinOn E b (alts b) = true) :
+    ∀ w1 ∈ alts b, ∀ w2 ∈ alts b, oneListed (w1 ++ [32] ++ w2) (recognise E (w1 ++ [32] ++ w2)) = true := by
+  intro w1 h1' w2 h2'
+  by_cases hc : (isCore w1 && isCore w2) = true
+  · simp only [Bool.and_eq_true] at hc
+    unfold samePolarityOK at h1
+    have hb : b ∈ [true, false] := by cases b <;> simp
+    exact List.all_eq_true.1 (List.all_eq_true.1 (List.all_eq_true.1 h1 b hb) w1 (mem_altsCore _ _ h1' hc.1)) w2
+      (mem_altsCore _ _ h2' hc.2)
+  · unfold sameSkinOn at h2
+    have := List.all_eq_true.1 (List.all_eq_true.1 h2 w1 h1') w2 h2'
+    simp only [Bool.or_eq_true] at this
+    rcases this with h | h
+    · exact absurd h hc
+    · exact h
 
 end RTV.Choice
